@@ -105,7 +105,8 @@ Section CoerceFacts.
 
   (* ---- cast_all *)
   Lemma cast_all_sound : forall (target : list fieldT) (b b2 : list columnT), cast_all ty col cast target b = Some b2 ->
-    schema b2 = target /    (nms (schema b) = nms target ->
+    schema b2 = target /\
+    (nms (schema b) = nms target ->
      forall f v, In (f, v) b2 -> exists c, In c b /\ fst (fst c) = fst f /\ cast (snd f) (snd (fst c)) (snd c) = Some v).
   Proof.
     induction target as [|f tr IH]; intros b b2 H.
@@ -141,7 +142,8 @@ Section CoerceFacts.
   (* 2. whatever reaches the state has the declared schema, and every column of it is the same-named input column,
         as it was or cast to the declared type *)
   Lemma coerce_accept target (b b' : list columnT) : coerceT target b = CAccept b' ->
-    schema b' = target /    forall f v, In (f, v) b' ->
+    schema b' = target /\
+    forall f v, In (f, v) b' ->
       exists c, In c b /\ fst (fst c) = fst f /\ (c = (f, v) \/ cast (snd f) (snd (fst c)) (snd c) = Some v).
   Proof.
     unfold coerce. destruct (schema_eqb ty ty_eqb (schema b) target) eqn:E1.
